@@ -163,4 +163,25 @@ Proof.
     + rewrite fupd_other, nth_upd_ne by auto. apply Rf; auto.
 Qed.
 
+(** *** the owner's push ([WakerList::push], no notification) is [p_push_fresh] / [p_push_stale] *)
+Theorem enqueue_is_p_push b i w k s r :
+  get_blk w b = Some k -> i < length (bflags k) -> R k s -> pp s = PIdle r ->
+  exists k' s', get_blk (snd (enqueue_slot b i w)) b = Some k' /\ step B s s' /\ R k' s' /\ pp s' = PIdle RNone.
+Proof.
+  intros Hk Hi [Rf Rq Rr Rw] Hpp. unfold enqueue_slot. rewrite Hk.
+  assert (Hnth : nth_error (bflags k) i = Some (nth i (bflags k) false)) by (apply nth_error_nth'; exact Hi).
+  rewrite Hnth. destruct (nth i (bflags k) false) eqn:Hfl; cbn [snd].
+  - (* the slot is already queued: nothing is enqueued *)
+    exists k. eexists. split; [exact Hk|]. split; [apply (p_push_stale B s r i Hpp); rewrite (Rf i Hi); exact Hfl|].
+    split; [|reflexivity]. constructor; simpl; auto.
+  - eexists. eexists. split.
+    { change (get_blk (g_enq ?x) b) with (get_blk x b). eapply get_put_same. exact Hk. }
+    split; [apply (p_push_fresh B s r i Hpp); rewrite (Rf i Hi); exact Hfl|]. split; [|reflexivity].
+    constructor; simpl; auto.
+    + intros j Hj. rewrite upd_length in Hj. destruct (Nat.eq_dec j i) as [->|Hne].
+      * rewrite fupd_same, nth_upd_eq by auto. reflexivity.
+      * rewrite fupd_other, nth_upd_ne by auto. apply Rf; auto.
+    + rewrite Rq, map_app. reflexivity.
+Qed.
+
 End WithBudget.
